@@ -26,6 +26,10 @@ _TEMPLATES = {
     "block_include": ("X" + LF + "  {%* include 'inc' %}" + LF + "Y" + LF, "  "),
     "filter": ("X" + LF + "  {{* x | upper | lower }}" + LF + "Y" + LF, "  "),
     "first_line": ("  {{* x }}" + LF + "Y" + LF, "  "),
+    # markers in the middle of a line: the whitespace between the preceding text and the marker is the prefix
+    "mid_expr": ("X" + LF + "foo  {{* x }}" + LF + "Y" + LF, "  "),
+    "mid_include": ("X" + LF + "key:" + TAB + "{%* include 'inc' %}" + LF + "Y" + LF, TAB),
+    "mid_after_tag": ("X" + LF + "{% if True %}   {{* x }}{% endif %}" + LF + "Y" + LF, "   ", "X" + LF),
 }
 _src = {k: v[0] for k, v in _TEMPLATES.items()}
 _src["inc"] = "{{ x }}"
@@ -77,8 +81,10 @@ def marker_prefixes_every_nonempty_line(x: str) -> bool:
     pre: len(x) <= MAXLEN and all(c in SIG for c in x)
     post: _
     """
-    tmpl, prefix = _TEMPLATES[WHICH]
-    head, tail = tmpl.split(prefix + "{", 1)[0], LF + "Y" + LF
+    tmpl, prefix = _TEMPLATES[WHICH][0], _TEMPLATES[WHICH][1]
+    # the rendered text before the construct: the template text before the prefix (given explicitly where that text contains tags)
+    head = _TEMPLATES[WHICH][2] if len(_TEMPLATES[WHICH]) > 2 else tmpl.split(prefix + "{", 1)[0]
+    tail = LF + "Y" + LF
     out = _T[WHICH].render(x=x)
     if not (out.startswith(head) and out.endswith(tail) and len(out) >= len(head) + len(tail)):
         return False
@@ -112,3 +118,55 @@ def use_query_tags_are_conditionals(q1: bool, q2: bool, q3: bool) -> bool:
     plain = _T["plain_if"].render(q1=q1, q2=q2, q3=q3)
     nplain = _T["plain_if"].render(q1=not q1, q2=not q2, q3=not q3)
     return _T["uses"].render() == plain and _T["nuses"].render() == nplain
+
+
+# ------------------------------------------------------------------------------------------------ sentence 1, partial
+# Ordinary templates (no auto-indent marker) from a fixed list covering the stable core -- expressions, if/for/set/macro/call/filter
+# blocks, include, whitespace control, comments, raw, and the stock string filters Nunavut's templates rely on -- rendered by the
+# bundled engine and by the upstream Jinja2 installed next to it, over SYMBOLIC context values.  This decides sentence 1 for this list
+# and these bounds only (the general statement is outside reach, see DESIGN.md).
+try:
+    import jinja2 as _up
+except ImportError:          # pragma: no cover
+    _up = None
+_ORD = {
+    "expr": "[{{ x }}]",
+    "if": "{% if flag %}{{ x }}{% elif n > 1 %}n{% else %}-{% endif %}",
+    "for": "{% for c in x %}({{ loop.index }}{{ c }}){% else %}empty{% endfor %}",
+    "set_macro": "{% set y = x %}{% macro m(a, b='d') %}<{{ a }}{{ b }}>{% endmacro %}{{ m(y) }}{{ m(x, n) }}",
+    "call": "{% macro w() %}[{{ caller() }}]{% endmacro %}{% call w() %}{{ x }}{% endcall %}",
+    "filter_block": "{% filter upper %}{{ x }}a{% endfilter %}",
+    "indent": "[{{ x | indent(n) }}][{{ x | indent(n, true) }}][{{ x | indent(n, flag, true) }}]",
+    "indent_block": "{% filter indent(2, true) %}" + LF + "{{ x }}" + LF + "{% endfilter %}",
+    "strings": "{{ x | upper }}|{{ x | lower }}|{{ x | trim }}|{{ x | length }}|{{ x | replace('a', 'bb') }}|{{ x | center(n) }}|{{ x | capitalize }}",
+    "include": "<{% include 'ord_inc' %}>",
+    "ws_control": "a  {%- if flag %}  {{ x }}  {%- endif -%}  b",
+    "comment_raw": "{# c #}{% raw %}{{ x }}{% endraw %}{{ x }}",
+    "join_default": "{{ x | list | join(',') }}|{{ none_v | default(x) }}|{{ (x ~ n) }}",
+    "lineprefix_plain": "{{ x }}" + LF + "  {{ x }}",
+}
+_ORD_ALL = dict(_ORD, ord_inc="i{{ x }}i")
+_BUNDLED = Environment(loader=DictLoader(_ORD_ALL), keep_trailing_newline=True)
+_UPSTREAM = _up.Environment(loader=_up.DictLoader(_ORD_ALL), keep_trailing_newline=True) if _up else None
+_TB = {k: _BUNDLED.get_template(k) for k in _ORD}
+_TU = {k: _UPSTREAM.get_template(k) for k in _ORD} if _up else {}
+ORD = os.environ.get("C19_ORD", "expr")
+
+
+def ordinary_template_renders_as_upstream(x: str, n: int, flag: bool) -> bool:
+    """
+    pre: len(x) <= MAXLEN and all(c in SIG for c in x) and 0 <= n <= 3
+    post: _
+    """
+    ctx = dict(x=x, n=n, flag=flag, none_v=None)
+    try:
+        a = _TB[ORD].render(**ctx)
+        ea = None
+    except Exception as e:      # same output, or failure where upstream fails
+        a, ea = None, type(e).__name__
+    try:
+        b = _TU[ORD].render(**ctx)
+        eb = None
+    except Exception as e:
+        b, eb = None, type(e).__name__
+    return a == b and (ea is None) == (eb is None)
